@@ -18,12 +18,17 @@
  *   ip6match <ip16> <net16> <mask>       -> 0 | 1
  *   ipbl <4|6> <ip16> <file>             -> -1 | 0 | 1     (check_ip4/check_ip6 on an exact-size heap copy)
  *   lookupipbl <4|6> <ip16> <file>       -> -1 | 0 | 1     (memfd + flock + mmap: the production path)
+ *   cfstate <what> <absent|unreadable|locked> [args]   the loaders on a missing file (fd -1, ENOENT), an unreadable one
+ *                                           (fd -1, EACCES) and one whose lock is held by a writer; <what> [args] =
+ *                                           lload <striptab> | loadint <default> | oneliner | loadlist <cf> |
+ *                                           finddomainfd <domain> | lookupipbl <4|6> <ip16>
  */
 #define _GNU_SOURCE
 #include <sys/mman.h>
 #include <sys/types.h>
 #include <sys/stat.h>
 #include <fcntl.h>
+#include <sys/file.h>
 #include <unistd.h>
 #include <stdint.h>
 #include "hcommon.h"
@@ -55,6 +60,33 @@ static int mkfd(const unsigned char *b, size_t n)
 	lseek(fd, 0, SEEK_SET);
 	return fd;
 }
+
+/* error names as the driver prints them */
+static const char *en(int e)
+{
+	if (e == ENOLCK) return "ENOLCK";
+	if (e == EACCES) return "EACCES";
+	return ename(e);
+}
+
+/* file states other than "content": absent -> fd -1/ENOENT, unreadable -> fd -1/EACCES,
+ * locked -> a descriptor whose file is exclusively locked through a second open file description */
+static int lockfd = -1;
+static int statefd(const char *st)
+{
+	lockfd = -1;
+	if (!strcmp(st, "absent")) { errno = ENOENT; return -1; }
+	if (!strcmp(st, "unreadable")) { errno = EACCES; return -1; }
+	static const unsigned char some[] = "example.org\n\x0a\x00\x00\x00\x08";
+	int fd = mkfd(some, sizeof(some) - 1);
+	char path[64];
+	snprintf(path, sizeof(path), "/proc/self/fd/%d", fd);
+	lockfd = open(path, O_RDONLY | O_CLOEXEC);
+	if (lockfd < 0 || flock(lockfd, LOCK_EX | LOCK_NB) != 0) { perror("lock setup"); exit(3); }
+	errno = 0;
+	return fd;
+}
+static void stateend(void) { if (lockfd >= 0) close(lockfd); lockfd = -1; }
 
 static int cf_x(const char *s) { return strchr(s, 'x') != NULL; }
 static int cf_a(const char *s) { return s[0] == 'a'; }
@@ -148,7 +180,7 @@ int main(void)
 			unsigned char *d = unhex(tok[2], &l2, 1);
 			errno = 0;
 			int r = finddomainfd(mkfd(c, l), (char *)d, 1);
-			if (r < 0) printf("%d %s\n", r, ename(errno)); else printf("%d\n", r);
+			if (r < 0) printf("%d %s\n", r, en(errno)); else printf("%d\n", r);
 			free(c); free(d);
 		} else if (!strcmp(tok[0], "matchdomain") && n == 3) {
 			unsigned char *d = unhex(tok[1], &l, 1);
@@ -183,6 +215,51 @@ int main(void)
 			int r = lookupipbl(mkfd(c, l2));
 			printf("%d\n", r);
 			free(c); free(ip);
+		} else if (!strcmp(tok[0], "cfstate") && n >= 3) {
+			const char *what = tok[1], *st = tok[2];
+			if (!strcmp(what, "lload") && n == 4) {
+				char *buf = (char *)1;
+				int fd = statefd(st);
+				size_t r = lloadfilefd(fd, &buf, atoi(tok[3]));
+				if (r == (size_t)-1) printf("err %s%s\n", en(errno), buf ? " buf-not-null" : "");
+				else if (r == 0) printf("empty%s\n", buf ? " buf-not-null" : "");
+				else { printf("ok "); puthex(stdout, (unsigned char *)buf, r); putchar('\n'); free(buf); }
+			} else if (!strcmp(what, "loadint") && n == 4) {
+				unsigned long def = strtoul(tok[3], NULL, 10), res = def ^ 0x5a5a;
+				int fd = statefd(st);
+				int r = loadintfd(fd, &res, def);
+				if (r == 0) printf("ok %lu\n", res); else printf("err %s\n", en(errno));
+			} else if (!strcmp(what, "oneliner") && n == 3) {
+				char *buf = (char *)1;
+				int fd = statefd(st);
+				size_t r = loadonelinerfd(fd, &buf);
+				if (r == (size_t)-1) printf("err %s%s\n", en(errno), buf ? " buf-not-null" : "");
+				else { printf("ok "); puthex(stdout, (unsigned char *)buf, r); putchar('\n'); free(buf); }
+			} else if (!strcmp(what, "loadlist") && n == 4) {
+				int m = atoi(tok[3]);
+				char **arr = (char **)1;
+				int fd = statefd(st);
+				int r = loadlistfd(fd, &arr, m == 1 ? cf_x : m == 2 ? cf_a : NULL);
+				if (r != 0) printf("err %s\n", en(errno));
+				else if (arr == NULL) printf("null\n");
+				else { printf("ok ?\n"); free(arr); }
+			} else if (!strcmp(what, "finddomainfd") && n == 4) {
+				unsigned char *d = unhex(tok[3], &l2, 1);
+				int fd = statefd(st);
+				int r = finddomainfd(fd, (char *)d, 1);
+				if (r < 0) printf("%d %s\n", r, en(errno)); else printf("%d\n", r);
+				free(d);
+			} else if (!strcmp(what, "lookupipbl") && n == 5) {
+				unsigned char *ip = unhex(tok[4], &l, 0);
+				setip(tok[3], ip, l);
+				int fd = statefd(st);
+				int r = lookupipbl(fd);
+				if (r < 0) printf("%d %s\n", r, en(errno)); else printf("%d\n", r);
+				free(ip);
+			} else {
+				puts("bad-op");
+			}
+			stateend();
 		} else {
 			puts("bad-op");
 		}
